@@ -134,7 +134,22 @@ def equivalent_pair(rng, nfields):
 # ---------------------------------------------------------------------------------------------------------------
 # malformed requests
 
-KINDS = ["dup", "missing", "extra", "comb_not_split", "comb_not_field", "combine_without_split", "overwrite_split", "inner_unequal", "valid"]
+KINDS = [
+    "dup", "missing", "extra", "comb_not_split", "comb_not_field", "combine_without_split",
+    "overwrite_split", "resplit_kwargs_only", "resplit_overwrite_explicit", "resplit_overwrite_kwargs",
+    "inner_unequal", "valid",
+]  # fmt: skip
+RUN_KINDS = ("valid", "resplit_overwrite_explicit", "resplit_overwrite_kwargs")  # well-formed: must run
+PRESPLIT_VALUE = [1, 2]  # what `.split("f", f=[1, 2])` leaves in field f when a later split(overwrite=True) replaces it
+
+
+def patch_f(outputs, replaced: bool):
+    """after an overwriting second split, field f keeps the first split's list as a plain value"""
+    if replaced or outputs is None:
+        return outputs
+    if outputs and isinstance(outputs[0], list) and outputs[0] and isinstance(outputs[0][0], list):
+        return [patch_f(g, replaced) for g in outputs]
+    return [v[:5] + [PRESPLIT_VALUE] + v[6:] for v in outputs]
 
 
 def malformed(rng, kind):
@@ -169,10 +184,17 @@ def malformed(rng, kind):
         req["do_split"] = False
         req["kwargs"] = {}
         req["combiner"] = [sa.FIELDS[rng.choice(range(len(sa.FIELDS)))]]
-    elif kind == "overwrite_split":
-        if 5 in fs:
+    elif kind in ("overwrite_split", "resplit_kwargs_only", "resplit_overwrite_explicit", "resplit_overwrite_kwargs"):
+        # a second .split(...) on a task that is already split over f: rejected unless overwrite=True, whether the
+        # splitter is given explicitly or derived from the keyword arguments; with overwrite it replaces the first split
+        if 5 in fs and kind != "resplit_overwrite_explicit" and rng.random() < 0.7:
             return malformed(rng, kind)
         req["presplit"] = True
+        if kind in ("resplit_kwargs_only", "resplit_overwrite_kwargs"):
+            spl = sa.O(*[sa.F(i) for i in fs]) if len(fs) > 1 else sa.O(sa.F(fs[0]))  # `splitter = list(inputs)`
+            req["kwargs_only"] = True
+        if kind.startswith("resplit_overwrite"):
+            req["overwrite"] = True
     elif kind == "inner_unequal":
         a, b = rng.sample(range(len(sa.FIELDS)), 2)
         la, lb = rng.sample([1, 2, 3], 2)
@@ -183,7 +205,7 @@ def malformed(rng, kind):
     elif kind == "valid":
         if rng.random() < 0.5:
             req["combiner"] = [sa.FIELDS[i] for i in rng.sample(fs, rng.randint(1, nf))]
-    req["splitter"] = sa.to_py(spl)
+    req["splitter"] = None if req.get("kwargs_only") else sa.to_py(spl)
     # what the model is asked
     kw = [NAME_IX[k] for k in req["kwargs"]]
     queries = []
@@ -191,11 +213,11 @@ def malformed(rng, kind):
         queries.append(
             {
                 "op": "split_check",
-                "splitter": spl,
+                "splitter": None if req.get("kwargs_only") else spl,
                 "kwargs": kw,
                 "task_fields": TASK_FIELDS,
                 "has_splitter": bool(req.get("presplit")),
-                "overwrite": False,
+                "overwrite": bool(req.get("overwrite")),
                 "ndim_names": [],
                 "non_seq": [],
             }
@@ -218,15 +240,19 @@ def malformed(rng, kind):
         "combiner": [NAME_IX[c] for c in (req["combiner"] or []) if c in NAME_IX and NAME_IX[c] < 6],
     }
     queries.append(sa.model_query(st_case))
-    return {"kind": kind, "request": req, "state_case": st_case}, queries
+    f_replaced = (not req.get("presplit")) or 5 in sa.tree_fields(spl)
+    return {"kind": kind, "request": req, "state_case": st_case, "f_replaced": f_replaced}, queries
 
 
-def model_of_malformed(answers) -> dict:
+def model_of_malformed(answers, f_replaced=True) -> dict:
     """first rejecting stage wins; otherwise the outputs the model predicts"""
     for a in answers[:-1]:
         if a.get("model") != "ok":
             return {"rejected": True, "task_jobs": 0, "body_runs": 0}
-    return sa.observable(sa.model_view(answers[-1], "model", "public"), "public")
+    obs = sa.observable(sa.model_view(answers[-1], "model", "public"), "public")
+    if "outputs" in obs:
+        obs = {"outputs": patch_f(obs["outputs"], f_replaced)}
+    return obs
 
 
 # ---------------------------------------------------------------------------------------------------------------
@@ -247,8 +273,8 @@ def correspondence(ctx):
             continue
         pairs.append((a, b, labs, "public"))
     mal = []
-    for _ in range(ctx.pick(50, 700)):
-        mal.append(malformed(rng, rng.choice(KINDS)))
+    for n in range(ctx.pick(60, 720)):
+        mal.append(malformed(rng, KINDS[n % len(KINDS)]))  # every kind, round robin
 
     # model: started first, runs in the background while the implementation is exercised
     queries = []
@@ -303,15 +329,18 @@ def correspondence(ctx):
             if any("error" in x for x in sub):
                 ctx.tie_broken.append({"kind": "model-driver-rejects-case", "case": m, "detail": [x.get("error") for x in sub]})
             else:
-                model = model_of_malformed(sub)
+                model = model_of_malformed(sub, m["f_replaced"])
         ctx.count(f"request:{m['kind']}:" + ("rejected@" + impl.get("stage", "?") + ":" + impl.get("class", "") if impl.get("rejected") else "ran"))
-        if m["kind"] == "valid":
-            # a well-formed request must not be rejected (the reference is the nested-loop oracle on the state case)
-            orc = sa.oracle_case(m["state_case"])
-            spec_ok = obs == sa.observable(orc, "public")
+        if m["kind"] in RUN_KINDS:
+            # a well-formed request must not be rejected (the reference is the nested-loop oracle on the state case);
+            # a second split with overwrite=True replaces the first one
+            orc = sa.observable(sa.oracle_case(m["state_case"]), "public")
+            if "outputs" in orc:
+                orc = {"outputs": patch_f(orc["outputs"], m["f_replaced"])}
+            spec_ok = obs == orc
         else:
             spec_ok = bool(obs.get("rejected")) and obs["task_jobs"] == 0 and obs["body_runs"] == 0
-        ctx.judge({"malformed": m}, obs, model, spec_ok, nontrivial=m["kind"] != "valid", key=json.dumps(m["request"], sort_keys=True), what=f"C05 request {m['kind']}")
+        ctx.judge({"malformed": m}, obs, model, spec_ok, nontrivial=m["kind"] != "valid", key=json.dumps([m["kind"], m["request"]], sort_keys=True), what=f"C05 request {m['kind']}")
 
 
 def search(ctx):
@@ -321,7 +350,7 @@ def search(ctx):
         oa, ob = sa.observable(sa.state_level(a), "state"), sa.observable(sa.state_level(b), "state")
         ctx.judge({"a": a, "b": b, "level": "state"}, [oa, ob], None, oa == ob, what="C05 search")
     for n in range(ctx.pick(150, 600)):
-        m, _ = malformed(rng, rng.choice(KINDS[:-1]))
+        m, _ = malformed(rng, rng.choice([k for k in KINDS if k not in RUN_KINDS]))
         obs = sa.observable(sa.public_level(None, ctx.scratch / f"s{n}_{ctx.evaluations}", request=m["request"]), "public")
         ctx.judge({"malformed": m}, obs, None, bool(obs.get("rejected")) and obs["task_jobs"] == 0 and obs["body_runs"] == 0, what="C05 search")
 
